@@ -210,6 +210,48 @@ def backend_tables(p):
                         if k.arg == "name":
                             k.value = _as_const(m, k.value)
                     ctors.append(n)
+                # the same two things done through a small shared helper of another module (`_make_backend(ops, name,
+                # kwargs, priority=-1)`, `_register_on_import("numpy", {"numpy": create_backend, ...})`)
+                if r and r[0] == "func" and r[1].module is not m and r[1].parent is None and isinstance(r[1].node, ast.FunctionDef) and not n.args == [] and not any(isinstance(a, ast.Starred) for a in n.args):
+                    h = r[1]
+                    hbody = [st for st in h.node.body if not (isinstance(st, ast.Expr) and isinstance(st.value, ast.Constant))]
+                    amap = {}
+                    for i_, a in enumerate(n.args):
+                        if i_ < len(h.params):
+                            amap[h.params[i_]] = a
+                    for k in n.keywords:
+                        if k.arg:
+                            amap[k.arg] = k.value
+                    pos = [a.arg for a in h.node.args.posonlyargs + h.node.args.args]
+                    for q, d in zip(pos[len(pos) - len(h.node.args.defaults) :], h.node.args.defaults):
+                        amap.setdefault(q, d)
+                    from .elempreds import rename
+
+                    if len(hbody) == 1 and isinstance(hbody[0], ast.Return) and isinstance(hbody[0].value, ast.Call):
+                        rr = resolve_callee(p, hbody[0].value, h.module)
+                        if rr and rr[0] == "class" and rr[1].name == "Backend":
+                            c2 = rename(hbody[0].value, amap)
+                            for x in ast.walk(c2):
+                                if hasattr(x, "lineno"):
+                                    x.lineno = n.lineno
+                            c2._parent = getattr(n, "_parent", None)
+                            for k in c2.keywords:
+                                if k.arg == "name":
+                                    k.value = _as_const(m, k.value)
+                            ctors.append(c2)
+                    if len(hbody) == 1 and isinstance(hbody[0], ast.For) and len(hbody[0].body) == 1 and isinstance(hbody[0].body[0], ast.Expr) and isinstance(hbody[0].body[0].value, ast.Call) and norm(hbody[0].body[0].value.func).endswith("register_on_import"):
+                        loop_ = hbody[0]
+                        inner_call = loop_.body[0].value
+                        it = loop_.iter
+                        if isinstance(it, ast.Call) and isinstance(it.func, ast.Attribute) and it.func.attr == "items" and isinstance(it.func.value, ast.Name) and isinstance(amap.get(it.func.value.id), ast.Dict) and isinstance(loop_.target, ast.Tuple) and len(loop_.target.elts) == 2:
+                            kname, vname = (e.id for e in loop_.target.elts)
+                            d = amap[it.func.value.id]
+                            for k_, v_ in zip(d.keys, d.values):
+                                env = dict(amap)
+                                env[kname], env[vname] = k_, v_
+                                args = [env.get(a.id, a) if isinstance(a, ast.Name) else a for a in inner_call.args]
+                                if len(args) == 3:
+                                    regs.append((_as_const(m, args[0]), _as_const(m, args[1]), args[2], n))
         out[fw] = (m, regs, ctors)
     return out
 
@@ -350,6 +392,25 @@ def r5(p, rep):
     # candidates: union over all tensors
     loops = [n for n in walk_no_nested(f.node) if isinstance(n, ast.For) and norm(n.iter) == f.params[1]]
     ok = any(any(isinstance(x, ast.Call) and isinstance(x.func, ast.Attribute) and x.func.attr in ("update", "extend", "add") for x in ast.walk(l)) and not any(isinstance(x, (ast.Break, ast.Return)) for x in ast.walk(l)) for l in loops)
+    if not ok:
+        # collected in one go: `{b for tensor in tensors for b in self.backends if b.is_supported_tensor(tensor)}`, in the
+        # function itself or in a method it hands all the tensors to
+        scopes = [(f, f.params[1])]
+        for c in walk_no_nested(f.node):
+            if isinstance(c, ast.Call) and any(isinstance(a, ast.Name) and a.id == f.params[1] for a in c.args):
+                r = resolve_callee(p, c, f.module)
+                h = r[1] if r and r[0] == "func" else (p.lookup_method(f.cls, c.func.attr) if isinstance(c.func, ast.Attribute) and isinstance(c.func.value, ast.Name) and c.func.value.id == f.params[0] and f.cls is not None else None)
+                if h is not None:
+                    idx = next(i for i, a in enumerate(c.args) if isinstance(a, ast.Name) and a.id == f.params[1])
+                    off = 1 if h.cls is not None else 0
+                    if idx + off < len(h.params):
+                        scopes.append((h, h.params[idx + off]))
+        for h, tp in scopes:
+            for comp in [x for x in ast.walk(h.node) if isinstance(x, (ast.SetComp, ast.ListComp))]:
+                gens = comp.generators
+                over = [g_ for g_ in gens if norm(g_.iter) == tp]
+                if over and len(gens) >= 2 and "is_supported_tensor" in norm(comp):
+                    ok = True
     rep.add("C11.R5", f"{f.qualname}:union-over-tensors", f.loc, ok, "candidates are collected from every tensor argument (no early exit)" if ok else "candidate collection stops early or ignores some tensor arguments: the choice depends on argument order")
     # scalars alone select numpy
     def _all_isinstance(t):
@@ -365,7 +426,21 @@ def r5(p, rep):
         )
 
     cfg5 = CFG(f.node)
-    sc = [n for n in walk_no_nested(f.node) if isinstance(n, ast.If) and cfg5.node_for(n) is not None and _all_isinstance(cfg5.expand(n.test, cfg5.node_for(n)))]
+
+    def _written_out(t, at):
+        """the test with a locally bound predicate lambda applied: `is_scalar = lambda t: isinstance(t, ...)`"""
+        t = cfg5.expand(t, at)
+        if isinstance(t, ast.Call) and isinstance(t.func, ast.Name) and t.func.id == "all" and t.args and isinstance(t.args[0], ast.GeneratorExp) and isinstance(t.args[0].elt, ast.Call) and isinstance(t.args[0].elt.func, ast.Name) and len(t.args[0].elt.args) == 1:
+            lam = common.single_reaching_value(cfg5, n_if, t.args[0].elt.func.id) if (n_if := getattr(at, "ast", None)) is not None else None
+            if isinstance(lam, ast.Lambda) and len(lam.args.args) == 1 and isinstance(lam.body, ast.Call) and norm(lam.body.func) == "isinstance":
+                from .elempreds import rename
+
+                new_elt = rename(lam.body, {lam.args.args[0].arg: t.args[0].elt.args[0]})
+                t2 = ast.Call(func=t.func, args=[ast.GeneratorExp(elt=new_elt, generators=t.args[0].generators)], keywords=[])
+                return ast.copy_location(t2, t)
+        return t
+
+    sc = [n for n in walk_no_nested(f.node) if isinstance(n, ast.If) and cfg5.node_for(n) is not None and _all_isinstance(_written_out(n.test, cfg5.node_for(n)))]
     ok = bool(sc) and any('_get_by_name("numpy")' in norm(s).replace("'", '"') for s in sc[0].body)
     rep.add("C11.R5", f"{f.qualname}:scalars-select-numpy", f.loc, ok, "Python/numpy scalars alone select the numpy backend by name")
 
@@ -573,6 +648,40 @@ def backends_ns_names(p, module):
     return names
 
 
+def r9(p, rep):
+    rep.rule("C11.R9", "a tensor no registered backend supports triggers the check for newly imported frameworks, whatever the other arguments are", "T-DOM (the retry is guarded per tensor, not by emptiness of the candidates of all tensors)", floor=1)
+    f = p.func("BackendRegistryState._get_by_tensors", "frontend.backend")
+    tparam = f.params[1]
+    n = 0
+    scopes = [g for g in p.funcs.values() if g is f or g.parent is f]
+    for g in scopes:
+        cfg = common.cfg_of(g)
+        for c in common.walk_with_lambdas(g.node):
+            if not (isinstance(c, ast.Call) and isinstance(c.func, ast.Attribute) and c.func.attr == "_check_new_imports"):
+                continue
+            n += 1
+            facts = common.lexical_facts(g, c, stop=f)
+            bad = None
+            for t, pol in facts:
+                lo_hi = None
+                # an emptiness test `len(X) == 0` / `not X` / `X` on a collection X
+                names = [y.id for y in ast.walk(t) if isinstance(y, ast.Name)]
+                for X in names:
+                    lo, hi = common.len_bounds([(t, pol)], X)
+                    if hi == 0:
+                        v = common.single_reaching_value(cfg, c, X) if g is f else None
+                        src = v
+                        if isinstance(v, ast.Call) and v.args:
+                            # candidates computed by a helper from all tensors
+                            if any(isinstance(a, ast.Name) and a.id == tparam for a in v.args):
+                                bad = X
+                        if isinstance(src, (ast.SetComp, ast.ListComp)) and any(norm(gen.iter) == tparam for gen in src.generators):
+                            bad = X
+            rep.add("C11.R9", f"{g.qualname}:new-imports-per-tensor", f"{g.module.rel}:{c.lineno}", bad is None, "the check for new imports is reached whenever some tensor has no supporting backend" if bad is None else f"the check for new imports only runs when `{bad}` - the candidates of ALL tensors together - is empty: a numpy array next to a tensor of a framework imported after einx selects numpy and memoises that answer, so the result depends on which lookups happened before")
+    if n == 0:
+        raise AnalysisError("unrecognised idiom: _get_by_tensors never checks for newly imported frameworks")
+
+
 def run(p, rep, tier):
     r1(p, rep)
     r2(p, rep)
@@ -582,6 +691,7 @@ def run(p, rep, tier):
     r6(p, rep)
     r7(p, rep)
     r8(p, rep)
+    r9(p, rep)
     from . import c06, c10
 
     rep.rule("C06.R5", "no hidden state survives a lookup: no mutable default arguments", "inventory", floor=50)
